@@ -248,6 +248,23 @@ def motif_near_close(rng, g, n, specs, deposit):
             {"op": "mark", "c": None}, {"op": "value"}]
 
 
+def motif_one_sided_liquidation_quote(rng, g, n, specs, deposit):
+    """A held margined contract is then quoted on one side only - the side its liquidation needs (bid for a
+    long, ask for a short) - at a moved price: the position can still be valued and must be marked."""
+    i = _pick(rng, specs, "margined")
+    if i is None:
+        return []
+    mid = g.mids.get(i, 100.0)
+    side = rng.choice([1, -1])
+    new = mid * (1 + rng.choice([-0.03, 0.02, 0.05]))
+    g.mids[i] = new
+    q = {"op": "quote", "c": i, "bid": new if side > 0 else NAN, "ask": NAN if side > 0 else new, "fault": "other_side_missing"}
+    return [{"op": "quote", "c": i, "bid": mid, "ask": mid},
+            {"op": "trade", "c": i, "mode": "unit", "x": side * rng.choice([1, 2])},
+            q, {"op": "mark", "c": None} if rng.random() < 0.5 else {"op": "value"}, {"op": "value"},
+            {"op": "quote", "c": i, "bid": new, "ask": new}]
+
+
 def motif_flip(rng, g, n, specs, deposit):
     i = rng.randrange(n)
     return [{"op": "trade", "c": i, "mode": "unit", "x": rng.choice([1, -1])},
